@@ -299,6 +299,16 @@ def run(case, st):
         ctx.setVerbatimCatcodes()
     for ch, code in spec['assign']:
         ctx.catcode(ch, code)
+    if common.case_hash(case)[0] % 4 == 0:
+        # the same table, reached the way a document reaches it after an inner group has come and gone
+        # (a group with a category change of its own was opened and closed after the assignments)
+        ctx.push()
+        ctx.catcode('!', 11)
+        ctx.catcode('\\', 12)
+        ctx.pop()
+        st.feature('table-reached-through', 'group-closed-after-assignments')
+    else:
+        st.feature('table-reached-through', 'assignments')
     table = ref_table(spec)
     # partition invariant of the real table: every alphabet character is looked up to the assigned class
     for ch in ALPHABET:
